@@ -31,6 +31,7 @@ type Prog struct {
 
 	declCache map[types.Object]*FuncInfo
 	flowCache map[ast.Node]*Flow
+	errWrap   map[*types.Func]int
 }
 
 // the one package that is allowed to fail to load (cgo header missing in the sandbox)
